@@ -733,7 +733,12 @@ def core_cases(quick=False):
                        (k, [0.0, 0.0]), (k, [0.0, nan]), (k, [0.0, inf]), (k, [-0.0, 0.0, 5.0]), (k, [nan, 10.0, 60.0]),
                        (k, [nan, -10.0, -60.0]), (k, [1e-40, 1e38]), (k, [1.8e-41, -4.4e-41, 7.7e-41]),
                        (k, [-1e-40, 3e38]), (k, [1e-7, 2e-7]), (k, [100.0, 100.0 + 2.0 ** -10]),
-                       (k, [-3e38, 3e38]), (k, [nan, 1e30, inf]), (k, [-5.0, 250.0]), (k, [-250.0, 0.0])]
+                       (k, [-3e38, 3e38]), (k, [nan, 1e30, inf]), (k, [-5.0, 250.0]), (k, [-250.0, 0.0]),
+                       # an extreme FINITE value of exactly 0 next to infinities: a clip threshold of 0 is a threshold
+                       # (seeded C02-10: `mx or dt_mx` treated it as "none given")
+                       (k, [-2.0, -1.0, 0.0, inf]), (k, [0.0, 1.0, 2.0, -inf]), (k, [-250.0, 0.0, inf, -inf]),
+                       (k, [0.0, 300.0, inf, -inf]), (k, [-0.0, -7.5, inf]), (k, [nan, -3.0, 0.0, inf]),
+                       (k, [nan, 3.0, 0.0, -inf])]
         for k, vals in arrays:
             for r in routes_for(out):
                 if quick and r.get('cls') in QUICK_CORE_SKIP:
